@@ -434,6 +434,7 @@ package logqlmetric
 //@   capture ky = call(metric.Key, 0)
 //@   capture ps0 = call(heap.Push, 0)
 //@   capture mn = call(g.heap.Min, 0)
+//@   capture ln = call(g.heap.Len, 0)
 //@   capture ls = call(i.less, 0)
 //@   capture pp = call(heap.Pop, 0)
 //@   capture ps1 = call(heap.Push, 1)
@@ -445,6 +446,6 @@ package logqlmetric
 //@   loop 1 invariant r.Timestamp == step.Timestamp
 //@   loop 0 body_ensures[grouped-by-retained-labels] gr_called && same(gr_a0, s.Set) && same(gr_a1, i.groupLabels) && ky_called && same(ky_recv, gr_r0)
 //@   loop 0 body_ensures[sort-keeps-every-sample] i.limit < 0 ==> !ps0_called && !pp_called && !ps1_called
-//@   loop 0 body_ensures[enters-while-not-full] ps0_called ==> i.limit > 0 && typeis[Sample](ps0_a1) && same(as[Sample](ps0_a1), s)
-//@   loop 0 body_ensures[replaces-only-when-it-beats-the-extreme] pp_called ==> i.limit > 0 && mn_called && ls_called && ls_r0 && same(ls_a0, s) && same(ls_a1, mn_r0) && ps1_called && typeis[Sample](ps1_a1) && same(as[Sample](ps1_a1), s)
+//@   loop 0 body_ensures[enters-while-not-full] ps0_called ==> i.limit > 0 && ln_called && ln_r0 < i.limit && typeis[Sample](ps0_a1) && same(as[Sample](ps0_a1), s)
+//@   loop 0 body_ensures[replaces-only-when-it-beats-the-extreme] pp_called ==> i.limit > 0 && ln_called && ln_r0 >= i.limit && mn_called && ls_called && ls_r0 && same(ls_a0, s) && same(ls_a1, mn_r0) && ps1_called && typeis[Sample](ps1_a1) && same(as[Sample](ps1_a1), s)
 //@   loop 0 body_ensures[otherwise-dropped] i.limit > 0 && !ps0_called && !pp_called ==> ls_called && !ls_r0 && !ps1_called
